@@ -141,7 +141,7 @@ fn dev_index(d: &Dev) -> usize {
     }
 }
 
-fn diff(a: &Meaning, b: &Meaning) -> Option<String> {
+pub fn diff(a: &Meaning, b: &Meaning) -> Option<String> {
     if let Some(p) = &b.panic {
         return Some(format!("panic: {}", p));
     }
@@ -169,7 +169,7 @@ fn diff(a: &Meaning, b: &Meaning) -> Option<String> {
     None
 }
 
-fn what_kind(d: &str) -> &'static str {
+pub fn what_kind(d: &str) -> &'static str {
     if d.starts_with("panic") {
         "panic"
     } else if d.starts_with("diagnostics") {
